@@ -757,6 +757,89 @@ func checkMemReaderPositions(c *Ctx, rule string, ri *readerInfo) {
 	c.Analysed(shortFn(posFn))
 	initOf := checkPosWalk(c, rule, ri, roles, posFn)
 
+	// Next: an invalid encoding is an error at the offending byte. utf8.DecodeRune reports it as (RuneError, 1); a validly
+	// encoded U+FFFD decodes to (RuneError, 3) and is an ordinary character.
+	{
+		var dec *ssa.Call
+		allCalls(next, func(call ssa.CallInstruction) {
+			if cv, ok := call.(*ssa.Call); ok && staticCalleeName(cv) == "unicode/utf8.DecodeRune" {
+				dec = cv
+			}
+		})
+		var rv, sv ssa.Value
+		if dec != nil {
+			for _, ref := range *dec.Referrers() {
+				if ex, ok := ref.(*ssa.Extract); ok {
+					if ex.Index == 0 {
+						rv = ex
+					} else {
+						sv = ex
+					}
+				}
+			}
+		}
+		nErr, onRune, onSize := 0, 0, 0
+		var at token.Pos
+		for _, b := range next.Blocks {
+			ret, ok := b.Instrs[len(b.Instrs)-1].(*ssa.Return)
+			if !ok || len(ret.Results) != 2 || isNilConst(ret.Results[1]) || rv == nil {
+				continue
+			}
+			hasRune, hasSize := false, false
+			for _, cd := range controlConds(b) {
+				if k, eq, ok := eqConst(cd.v, rv); ok && k == 0xFFFD && eq == cd.pol {
+					hasRune = true
+				}
+				if bo, ok := cd.v.(*ssa.BinOp); ok && sv != nil && (bo.X == sv || bo.Y == sv) {
+					hasSize = true
+				}
+			}
+			if hasRune {
+				nErr++
+				at = ret.Pos()
+				onRune++
+				if hasSize {
+					onSize++
+				}
+			}
+		}
+		key := "reader: Next takes (RuneError, size 1) for an invalid encoding, not U+FFFD itself"
+		switch {
+		case nErr > 0 && onSize == onRune:
+			c.Pass(rule, key, next.Pos(), "")
+		case nErr > 0:
+			c.Fail(rule, key, at, "an error is returned whenever the decoded rune equals utf8.RuneError, without a test of the decoded size: a validly encoded U+FFFD (size 3) in the text is reported as an invalid byte and scanning stops there")
+		default:
+			c.Undecided(rule, key, next.Pos(), "no error return of Next under a comparison of the decoded rune with utf8.RuneError was recognised")
+		}
+		// the error carries the position of the forward cursor (pos(true)), not of the pending lexeme's beginning
+		nTrue, nFalse := 0, 0
+		var bad token.Pos
+		allCalls(next, func(call ssa.CallInstruction) {
+			cv, ok := call.(*ssa.Call)
+			if !ok || cv.Call.StaticCallee() != posFn || len(cv.Call.Args) == 0 {
+				return
+			}
+			if k, ok := cv.Call.Args[len(cv.Call.Args)-1].(*ssa.Const); ok && k.Value != nil {
+				if k.Value.String() == "true" {
+					nTrue++
+				} else {
+					nFalse++
+					bad = cv.Pos()
+				}
+			}
+		})
+		key = "reader: an error of Next is reported at the forward cursor"
+		switch {
+		case nFalse > 0:
+			c.Fail(rule, key, bad, "Next computes the position of its error without walking the pending lexeme: an invalid byte is reported at the first character of whatever precedes it (the previous token, blanks or an open comment), not at the byte")
+		case nTrue > 0:
+			c.Pass(rule, key, next.Pos(), "")
+		case nErr > 0:
+			c.Undecided(rule, key, next.Pos(), "the position attached to the error of Next was not recognised as a call of the position function")
+		}
+	}
+
 	// Skip: returns the position before (pos(false)), commits pos(true) to the stored position and begin = forward
 	srecv := ssa.Value(skip.Params[0])
 	var before, after *ssa.Call
